@@ -352,3 +352,74 @@ pub fn snapshot_outlives_owner_round(ci: &CleanImage) -> Result<Option<Viol>, St
     util::remove_dir(&dir);
     Ok(res)
 }
+
+
+/// Several threads race to open a directory that does not hold anything yet. Exactly one wins; it writes and
+/// flushes; when everybody is done its data must still be there (a refused opener must not "clean up" a directory it
+/// found empty a moment ago). Returns (violation, refused attempts).
+pub fn empty_dir_race_round(seed: u64) -> Result<(Option<Viol>, u64), String> {
+    let dir = util::fresh_dir("c13e");
+    let cfg = CfgSpec { max_records: Some(4), read_buf: Some(64), ..Default::default() };
+    let nthreads = 2 + (seed % 5) as usize;
+    let replay = json!({"kind": "c13", "mode": "empty_dir_race", "seed": seed.to_string()});
+    let go = std::sync::atomic::AtomicBool::new(false);
+    let winners = std::sync::atomic::AtomicU64::new(0);
+    let refused = std::sync::atomic::AtomicU64::new(0);
+    let problem: std::sync::Mutex<Option<(String, String)>> = std::sync::Mutex::new(None);
+    {
+        let (dir, cfg, go, winners, refused, problem) = (&dir, &cfg, &go, &winners, &refused, &problem);
+        std::thread::scope(|sc| {
+            for t in 0..nthreads {
+                sc.spawn(move || {
+                    while !go.load(std::sync::atomic::Ordering::Acquire) {
+                        std::hint::spin_loop();
+                    }
+                    match guarded(|| RaftLog::<V>::open(cfg.to_config(dir))) {
+                        Err(p) => *problem.lock().unwrap() = Some(("panic_in_open".into(), p)),
+                        Ok(Err(_)) => {
+                            refused.fetch_add(1, std::sync::atomic::Ordering::Relaxed);
+                        }
+                        Ok(Ok(mut rl)) => {
+                            use raft_log::api::raft_log_writer::RaftLogWriter;
+                            winners.fetch_add(1, std::sync::atomic::Ordering::Relaxed);
+                            // (a later owner continues the log the earlier one left)
+                            let base = rl.log_state().last().map(|l| l.1 + 1).unwrap_or(0);
+                            for i in base..base + 6 {
+                                if let Err(e) = rl.append(vec![((1, i), format!("winner-{}-{}", t, i))]) {
+                                    *problem.lock().unwrap() = Some(("owner_disturbed".into(), format!("the winner of the race could not append: {}", e)));
+                                    return;
+                                }
+                            }
+                            let fid = crate::trace::next_flush_id();
+                            let _ = rl.flush(Some(crate::store::AckCb::new(fid)));
+                            let _ = crate::trace::wait_ack(fid, 60_000);
+                            rl.wait_worker_idle();
+                            // hold the directory until the losers have certainly finished their attempts
+                            std::thread::sleep(std::time::Duration::from_millis(5));
+                            drop(rl);
+                        }
+                    }
+                });
+            }
+            go.store(true, std::sync::atomic::Ordering::Release);
+        });
+    }
+    let mut res = problem.lock().unwrap().take().map(|(s, t)| v(&s, t, replay.clone()));
+    let w = winners.load(std::sync::atomic::Ordering::Relaxed);
+    if res.is_none() && w >= 1 {
+        // every winner wrote 6 entries under its own tag; whoever owned the directory last, entries 0..6 of ONE owner
+        // must be there (owners that came later continue the same log only if they opened it after the first was dropped)
+        match guarded(|| RaftLog::<V>::open(cfg.to_config(&dir))) {
+            Ok(Ok(rl)) => {
+                let n = rl.read(0, u64::MAX).filter_map(|e| e.ok()).count();
+                if (n as u64) < 6 * w {
+                    res = Some(v("data_of_the_owner_lost:refused_opener_cleaned_up", format!("{} threads raced to open an empty directory, {} became owner (one after the other) and each flushed 6 entries; afterwards the directory holds {} entries instead of {}", nthreads, w, n, 6 * w), replay.clone()));
+                }
+            }
+            Ok(Err(e)) => res = Some(v("final_open_refused", format!("after the race on an empty directory: {}", e), replay.clone())),
+            Err(p) => res = Some(v("panic_in_open", p, replay.clone())),
+        }
+    }
+    util::remove_dir(&dir);
+    Ok((res, refused.load(std::sync::atomic::Ordering::Relaxed)))
+}
